@@ -1,6 +1,7 @@
 """Hash table, second rule set: the sequential skeleton of the operations (written after the mechanical-mutant
 measurement showed whole functions no rule looked at).  Every rule is a necessary condition of the properties it is
 registered under; shapes that are not recognised are inconclusive (Broken), never a violation."""
+import os
 from .. import ir, mm, pat, paths
 from ..core import Broken
 from .lfht import fn, bits, NEXT, RH
@@ -183,6 +184,30 @@ def _retry_edges(f, c):
     for t, s_, a in pat.branch_edges_on(f, lambda a: a[0] == "ne" and any(isinstance(x, tuple) and x[0] == "asm" and x[-1] == c.inst.id for x in (a[1], a[2]))):
         out.add((t.blk.id, s_))
     return out
+
+
+def rule_allocdiscipline(ctx, rep, rid):
+    """Who may call the C allocator in the hash table: every byte the table and its resize machinery use comes from the `struct cds_lfht_alloc`
+    the table was created with (default: the cds_lfht_malloc / calloc / realloc / aligned_alloc / free hooks, which are the only functions of
+    rculfhash*.c that call libc's allocator directly).  Memory obtained through ht->alloc and released with free() - or the reverse - is an
+    invalid free for any caller-supplied allocator (cds_lfht_new_with_flavor_alloc)."""
+    m = ctx.mod("cds", "perfn")
+    hooks = set()
+    g0 = m.globals.get("cds_lfht_default_alloc") or {}
+    n = 0
+    for g in m.defined():
+        for c in g.calls():
+            if c.callee not in ("free", "malloc", "calloc", "realloc", "posix_memalign", "aligned_alloc", "valloc", "memalign"):
+                continue
+            loc = c.d.get("loc") or []
+            files = set(os.path.basename(x[1]) for x in loc if len(x) >= 2)
+            if not any(x.startswith("rculfhash") for x in files):
+                continue
+            n += 1
+            ok = g.srcname.startswith("cds_lfht_") and g.srcname[len("cds_lfht_"):] in ("malloc", "calloc", "realloc", "aligned_alloc", "free")
+            rep.check(ok, rid, "%s.%s@%d" % (g.srcname, c.callee, c.line), "libc %s is called from the default allocator hook %s" % (c.callee, g.srcname),
+                      "%s calls libc %s directly: tables created with a caller-supplied allocator get memory from / return memory to the wrong allocator (invalid free, heap corruption)" % (g.srcname, c.callee), [c.where()])
+    pat.require(n >= 4, "default allocator hooks of rculfhash.c not found (%d libc allocation calls)" % n)
 
 
 def rule_rhinit(ctx, rep, rid):
